@@ -3,6 +3,8 @@ import subprocess
 import sys
 from fractions import Fraction
 
+import os
+
 import numpy as np
 
 from .. import gen
@@ -37,7 +39,10 @@ class Recorder:
         self.seen.append({"alternatives": [str(a) for a in dm.alternatives],
                           "matrix": dm.matrix.to_numpy(copy=True)})
         call = len(self.seen) - 1
-        if self.drop is not None and call >= self.drop_from and self.drop in dm.alternatives:
+        if isinstance(self.drop, list):
+            if call >= self.drop_from:
+                dm = dm.loc[[a for a in dm.alternatives if a not in self.drop]]
+        elif self.drop is not None and call >= self.drop_from and self.drop in dm.alternatives:
             dm = dm.loc[[a for a in dm.alternatives if a != self.drop]]
         return self.inner.evaluate(dm)
 
@@ -63,18 +68,25 @@ def gen_case(rng):
             "seed": rng.choice([0, rng.randint(0, 10 ** 6), rng.randint(0, 10 ** 6), rng.randint(0, 10 ** 6), 2 ** 32 - 1]), "drop": drop, "allow_missing": rng.random() < 0.7}
 
 
-def experiment(case):
+def experiment(case, via_copy=False):
     from skcriteria.cmp.ranks_rev.rank_inv_check import RankInvariantChecker
     from .. import methods as M
     dm = I.mk(case)
     drop_alt = None
     if case["drop"]:
         drop_alt = case["alternatives"][-1]
+    if case["drop"] == "two":
+        drop_alt = list(case["alternatives"][-2:])
     rec = Recorder(M.make({"name": case["dmaker"]}), drop=drop_alt,
                    drop_from=0 if case["drop"] == "every" else 2)
     strat = {"median": "median", "mean": "mean", "max": np.max, "min": np.min}[case["strategy"]]
     chk = RankInvariantChecker(rec, repeat=case["repeat"], last_diff_strategy=strat, random_state=case["seed"],
                                allow_missing_alternatives=case["allow_missing"])
+    if via_copy:
+        # a copy taken before anything ran, evaluated AFTER the original has run: same seed, same experiment
+        cp = chk.copy()
+        chk.evaluate(dm)
+        chk, rec = cp, cp.dmaker
     rc = chk.evaluate(dm)
     ranks = []
     for name, r in rc.ranks:
@@ -92,11 +104,34 @@ def experiment(case):
             "ranks": ranks, "frame_ok": bool(frame_ok)}
 
 
+def hashseed_digests(case):
+    """The same seeded experiment in fresh interpreters started with different PYTHONHASHSEED values (string hashing
+    differs between them): equal seeds give equal experiments, whatever the session."""
+    import hashlib
+    import json
+    import subprocess
+    import sys
+    code = ("import json,sys,hashlib\nfrom harness.props import c19\nc=json.loads(sys.stdin.read())\n"
+            "o=c19.experiment(c)\nprint('DIGEST', hashlib.sha1(json.dumps([o['seen'][k]['matrix'] for k in range(len(o['seen']))]"
+            "+[o['ranks']], default=lambda x: x.tolist(), sort_keys=True).encode()).hexdigest())")
+    out = []
+    for hs in ("1", "2", "3"):
+        r = subprocess.run([sys.executable, "-W", "ignore", "-c", code], input=json.dumps(case), capture_output=True, text=True,
+                           env=dict(os.environ, PYTHONHASHSEED=hs), timeout=120)
+        d = [ln.split()[1] for ln in r.stdout.splitlines() if ln.startswith("DIGEST")]
+        out.append(d[0] if d else "ERR:" + r.stderr[-200:])
+    return out
+
+
 def run_impl(case):
     try:
         a = experiment(case)
         b = experiment(case)        # equal seeds => equal experiments
         a["repeatable"] = (a["seen"] == b["seen"] and a["ranks"] == b["ranks"])
+        if a["repeatable"] and len(case["matrix"]) % 2 == 0:
+            c = experiment(case, via_copy=True)
+            a["repeatable"] = (a["seen"] == c["seen"] and a["ranks"] == c["ranks"])
+            a["via_copy"] = True
         return a
     except Exception as e:  # noqa: BLE001
         return {"error": type(e).__name__, "exc": repr(e)[:300]}
@@ -305,6 +340,24 @@ def run(ctx):
             if [list(x) for x in mo] != want:
                 ctx.disagree(c, {"what": "schedule", "impl": want, "model": mo})
     ctx.traces_validated = len(cases)
+    # sessions with different string hashing (a decision maker that leaves two alternatives out of every ranking)
+    hcases = []
+    for _ in range(ctx.n(4, 24)):
+        c = gen_case(ctx.rng)
+        if len(c["matrix"]) < 5:
+            continue
+        c.update(drop="two", allow_missing=True, strategy="max")
+        hcases.append(c)
+    for c, ds in zip(hcases, I.pmap_timeout(hashseed_digests, hcases, 300)):
+        ctx.count("sessions_with_different_PYTHONHASHSEED")
+        ctx.case_seen(c, True)
+        if isinstance(ds, dict):
+            continue        # timed out: the known non-termination may hit here too
+        if any(d.startswith("ERR") for d in ds):
+            ctx.count("hashseed_session_failed")
+        elif len(set(ds)) != 1:
+            ctx.oracle_fail(c, {"oracle": "the same seeded experiment differs between interpreter sessions started with "
+                                          f"different PYTHONHASHSEED values (digests {ds})"})
 
 
 def replay(ctx, rep):
